@@ -1,4 +1,5 @@
 """C06 — SETUP requests are decoded exactly and survive earlier corrupted packets."""
+from amaranth import Elaboratable, Module, Signal
 from hypothesis import strategies as st
 
 from lunaverif.core import Sub, Result, fail
@@ -11,7 +12,8 @@ PROPERTY = "C06"
 ASSUMPTIONS = [
     "UTMI receive soundness (DESIGN.md §3); rx_active low >= 2 cycles between packets at high speed and >= 12 cycles at "
     "full speed (2 FS bit times = 10 cycles at 60 MHz, plus SYNC detection)",
-    "legal host: SETUP tokens addressed to the device go to endpoint 0 only; the standalone decoder's address is 0",
+    "legal host: SETUP tokens addressed to the device go to endpoint 0 only; the standalone decoder's address is 0; "
+    "sub `wired`: the device address (0..127, what SET_ADDRESS can assign) is constant during a case",
     "a setup MUST be reported for: own SETUP token immediately followed (next packet on the wire) by a CRC-valid DATA0 "
     "packet of exactly 8 bytes. It MUST NOT be reported for any other packet unless an own SETUP token is the most "
     "recent own-addressed token and no report happened since. The remaining shapes (own SETUP token, then foreign/"
@@ -39,6 +41,56 @@ def _harness():
         domain="usb")
 
 
+class _Wired(Elaboratable):
+    """USBTokenDetector (with the device's address) + USBDataPacketCRC + USBInterpacketTimer + USBSetupDecoder
+    (standalone=False), connected the way usb2/device.py:259-286 and usb2/control.py:133-141 do for a ULPI (60 MHz)
+    device: tokenizer.address/speed, CRC fed from utmi.rx_data/rx_valid, timer.speed, tokenizer interface fanned
+    out to the decoder, decoder.speed."""
+
+    def __init__(self):
+        from luna.gateware.interface.utmi import UTMIInterface
+        from luna.gateware.usb.usb2.packet import USBTokenDetector, USBDataPacketCRC, USBInterpacketTimer
+        from luna.gateware.usb.usb2.request import USBSetupDecoder
+        self.utmi = UTMIInterface()
+        self.address = Signal(7)
+        self.speed = Signal(2)
+        self.tokenizer = USBTokenDetector(utmi=self.utmi)
+        self.crc = USBDataPacketCRC()
+        self.timer = USBInterpacketTimer()
+        self.decoder = USBSetupDecoder(utmi=self.utmi)
+
+    def elaborate(self, platform):
+        m = Module()
+        m.submodules.tokenizer = self.tokenizer
+        m.submodules.crc = self.crc
+        m.submodules.timer = self.timer
+        m.submodules.decoder = self.decoder
+        self.crc.add_interface(self.decoder.data_crc)
+        self.timer.add_interface(self.decoder.timer)
+        m.d.comb += [
+            self.tokenizer.address.eq(self.address),
+            self.tokenizer.speed.eq(self.speed),
+            self.timer.speed.eq(self.speed),
+            self.decoder.speed.eq(self.speed),
+            self.crc.rx_data.eq(self.utmi.rx_data),
+            self.crc.rx_valid.eq(self.utmi.rx_valid),
+            self.tokenizer.interface.connect(self.decoder.tokenizer),
+        ]
+        return m
+
+
+def _wired_harness():
+    dut = _Wired()
+    utmi, p = dut.utmi, dut.decoder.packet
+    return CycleHarness(
+        dut,
+        dict(rx_active=utmi.rx_active, rx_valid=utmi.rx_valid, rx_data=utmi.rx_data, speed=dut.speed,
+             address=dut.address),
+        dict(rcv=p.received, ack=dut.decoder.ack, recipient=p.recipient, type=p.type, is_in=p.is_in_request,
+             request=p.request, value=p.value, index=p.index, length=p.length),
+        domain="usb")
+
+
 def fields_of(payload):
     b = payload
     return dict(recipient=b[0] & 0x1F, type=(b[0] >> 5) & 3, is_in=b[0] >> 7, request=b[1],
@@ -51,10 +103,12 @@ SETUP8 = st.one_of(
                      [0xFF] * 8, [0] * 8, [0xA1, 0xFE, 0x34, 0x12, 0x78, 0x56, 0xBC, 0x9A]]),
     st.lists(rx.BYTE, min_size=8, max_size=8))
 OTHER_LEN = st.one_of(st.lists(rx.BYTE, min_size=0, max_size=7), st.lists(rx.BYTE, min_size=9, max_size=12))
-FOREIGN = st.one_of(st.sampled_from([1, 2, 0x40, 0x7F]), st.integers(1, 127))
+FOREIGN_OFFSET = st.one_of(st.sampled_from([1, 2, 0x40, 0x7F]), st.integers(1, 127))   # distance from the own address
 
 
-def _items():
+def _items(addr=0):
+    SETUP_TOKEN = rx.token_bytes(usb2.PID_SETUP, addr, 0)
+    FOREIGN = FOREIGN_OFFSET.map(lambda d: (addr + d) % 128)                    # never the own address
     setup_tok = st.just(SETUP_TOKEN)
     good_data = st.builds(rx.data_bytes, st.just(usb2.PID_DATA0), SETUP8)
     corrupt = st.one_of(
@@ -69,7 +123,7 @@ def _items():
         rx.data_bad_crc(payload=rx.payloads(max_len=12, average=5)),
     )
     any_data = st.one_of(good_data, corrupt, rx.data_good(payload=rx.payloads(max_len=12, average=5)))
-    own_other_tok = st.builds(rx.token_bytes, st.sampled_from([usb2.PID_IN, usb2.PID_OUT, usb2.PID_PING]), st.just(0), rx.ENDP)
+    own_other_tok = st.builds(rx.token_bytes, st.sampled_from([usb2.PID_IN, usb2.PID_OUT, usb2.PID_PING]), st.just(addr), rx.ENDP)
     foreign_tok = st.builds(rx.token_bytes, rx.TOKEN_PID, FOREIGN, rx.ENDP)
     misc = st.one_of(rx.handshake_good(), st.builds(rx.sof_bytes, rx.FRAME), rx.garbage(6), st.just([]), good_data,
                      st.builds(lambda b, pos: [b[0]] + rx.flip_bits(b[1:], pos), setup_tok,
@@ -77,9 +131,9 @@ def _items():
     # near-miss SETUP tokens (not SETUP tokens for this device, so nothing after them may be reported): the PID byte
     # has the SETUP low nibble but a wrong check nibble (own address, good CRC5) -- e.g. an OUT token with two PID bits
     # hit; bad CRC5; foreign address. Same for the other token PIDs with a broken check nibble.
-    badnib_setup = st.builds(lambda m, e: [SETUP_TOKEN[0] ^ (m << 4)] + rx.token_bytes(usb2.PID_SETUP, 0, e)[1:],
+    badnib_setup = st.builds(lambda m, e: [SETUP_TOKEN[0] ^ (m << 4)] + rx.token_bytes(usb2.PID_SETUP, addr, e)[1:],
                              st.integers(1, 15), weighted([(0, 3), (1, 1)]))
-    badnib_tok = st.builds(lambda pid, m, e: (lambda t: [t[0] ^ (m << 4)] + t[1:])(rx.token_bytes(pid, 0, e)),
+    badnib_tok = st.builds(lambda pid, m, e: (lambda t: [t[0] ^ (m << 4)] + t[1:])(rx.token_bytes(pid, addr, e)),
                            rx.TOKEN_PID, st.integers(1, 15), rx.ENDP)
     badcrc5_setup = st.builds(lambda pos: [SETUP_TOKEN[0]] + rx.flip_bits(SETUP_TOKEN[1:], pos),
                               st.lists(st.integers(0, 15), min_size=1, max_size=2))
@@ -98,13 +152,15 @@ def _items():
     return items
 
 
-def _case_strategy():
+def _case_strategy(addr=None):
     tm = rx.timing(min_idle=2, max_idle=14, big_gaps=True)
     mk = lambda tup, tms: [dict(t, bytes=list(b)) for b, t in zip(tup, tms)]
-    item = st.builds(mk, _items(), st.tuples(tm, tm))
-    final = st.builds(mk, st.tuples(st.just(SETUP_TOKEN), st.builds(rx.data_bytes, st.just(usb2.PID_DATA0), SETUP8)),
+    item = st.builds(mk, _items(addr or 0), st.tuples(tm, tm))
+    final = st.builds(mk, st.tuples(st.just(rx.token_bytes(usb2.PID_SETUP, addr or 0, 0)),
+                                    st.builds(rx.data_bytes, st.just(usb2.PID_DATA0), SETUP8)),
                       st.tuples(tm, tm))
     return st.fixed_dictionaries(dict(
+        **({} if addr is None else dict(addr=st.just(addr))),
         speed=st.sampled_from([FULL, HIGH]),
         evs=st.builds(lambda items, fin: [e for it in items for e in it] + list(fin),
                       long_lists(item, min_size=0, max_size=10, average=4), final),
@@ -116,7 +172,7 @@ def _case_strategy():
 MUST, MUSTNOT, UNJUDGED = "must-report", "must-not", "unjudged"
 
 
-def classify(packets):
+def classify(packets, addr=0):
     """Reference scan over the literal packets -> list of (verdict, parse, note) and root-cause hints."""
     out = []
     last_own = None          # PID of the most recent own-addressed token, None once consumed
@@ -125,7 +181,7 @@ def classify(packets):
     for data in packets:
         p = usb2.parse(data)
         k = p["kind"]
-        if k == "token" and p["addr"] == 0:
+        if k == "token" and p["addr"] == addr:
             last_own, intervening, unknown = p["pid"], 0, False
             out.append((MUSTNOT, p, "own-token"))
         elif k == "data" and len(p["payload"]) == 8:
@@ -160,6 +216,8 @@ class SetupDecoder(Sub):
             "a pending own SETUP. non-trivial = >=1 corrupt/short/aborted data-PID packet or garbage strictly before a "
             "must-report SETUP")
 
+    wired = False
+
     def setup(self):
         self.h = _harness()
 
@@ -172,10 +230,15 @@ class SetupDecoder(Sub):
         evs = [dict(ev, idle=ev["idle"] + (0 if speed == HIGH else 10)) for ev in case["evs"]]
         script, spans = utmi_rx.render(evs, noise=case["noise"])
         script[0]["speed"] = speed
+        addr = case.get("addr", 0)
+        if self.wired:
+            script[0]["address"] = addr
         trace = self.h.run_script(script, tail=20)
         e = rx.ends(spans)
-        verdicts = classify([ev["bytes"] for ev in evs])
+        verdicts = classify([ev["bytes"] for ev in evs], addr)
         labels = {"HS" if speed == HIGH else "FS"}
+        if self.wired:
+            labels.add("addr>=64" if addr >= 64 else "addr=0" if addr == 0 else "addr 1..63")
         for t in range(0, e[0]):
             if trace[t].rcv or trace[t].ack:
                 return fail(f"received/ack before any packet ended (cycle {t})", signature="spurious-before-first")
@@ -229,7 +292,7 @@ class SetupDecoder(Sub):
                     k in ("empty", "badpid") or (k == "other"):
                 corrupt_seen = True
                 labels.add("corrupt:" + k)
-            if k == "token" and p["addr"] == 0:
+            if k == "token" and p["addr"] == addr:
                 pending_before_token = abandoned_setup
                 abandoned_setup = p["pid"] == usb2.PID_SETUP
             elif k == "data" and len(p["payload"]) <= 8:
@@ -237,4 +300,21 @@ class SetupDecoder(Sub):
         return Result(ok=True, nontrivial=nontrivial, labels=tuple(sorted(labels)))
 
 
-SUBS = [SetupDecoder()]
+class WiredDecoder(SetupDecoder):
+    name = "wired"
+    budget = {"quick": 3000, "thorough": 40000}
+    rule = ("same histories and the same oracle as `decoder`, but the DUT is USBTokenDetector(address input) + "
+            "USBDataPacketCRC + USBInterpacketTimer + USBSetupDecoder(standalone=False) wired as device.py/control.py do, "
+            "with a generated 7-bit device address (0, 1, 0x3F, 0x40, 0x55, 0x6C, 0x7F or any 0..127; constant per case): "
+            "own tokens carry that address, foreign tokens any other. non-trivial as in `decoder`")
+    wired = True
+
+    def setup(self):
+        self.h = _wired_harness()
+
+    def strategy(self):
+        addr = st.one_of(st.sampled_from([0x40, 0x7F, 0x55, 0x2A, 0x6C, 0x3F, 1, 0]), st.integers(0, 127))
+        return addr.flatmap(_case_strategy)
+
+
+SUBS = [SetupDecoder(), WiredDecoder()]
